@@ -46,8 +46,11 @@ def fam_class():
                 self.nonlin_f = any(v != 0 for v in prm["af"])
                 self.nonlin_g = any(v != 0 for v in prm["ag"])
 
+            tmod = 0          # > 0: the system uses the time only through the exact integer / float remainder t % tmod
+
             def _tt(self, t):
-                return self.systime if t is None else t
+                base = self.systime if t is None else t
+                return base % self.tmod if self.tmod else base
 
             def state_transition(self, state, input, t=None):
                 if getattr(self, "fail_next", "") == "f":       # a user callback that raises once (error-path atomicity),
@@ -71,6 +74,14 @@ def fam_class():
                     z = z + self.p_ag * torch.sin(state @ self.p_Wg.mT + input @ self.p_Vg.mT + self.p_phg)
                 return z
 
+        class SubFam(FamNLS):
+            """a user's subclass of a user's system: overrides `observation` (adds a constant offset `delta`)"""
+            delta = None
+
+            def observation(self, state, input, t=None):
+                return super().observation(state, input, t) + self.delta
+
+        FamNLS.Sub = SubFam
         _FAM_CLASS = FamNLS
     return _FAM_CLASS
 
